@@ -45,7 +45,7 @@ CHECKS["C07"] = {
     "runs": [{
         "harness": "c07_range", "sources": ["engines/codec/c07_range.cpp"], "variant": "plain", "libset": "core",
         "deps": ["engines/codec/c07_ref.h"],
-        "quick": {"parts": 16, "deadline": 100,
+        "quick": {"parts": 16, "deadline": 300,
                   "bounds": "918 definitions x ~8300 texts each (k in 7,8,15,16,23,24,31,32,63,64; 6 divisors) + float entry"},
         "thorough": {"parts": 16, "deadline": 800,
                      "bounds": "all k in 1..65,80; 18 divisors; extra ranges; + float entry"},
@@ -96,7 +96,7 @@ CHECKS["C10"] = {
     ],
     "runs": [{
         "harness": "c10_layout", "sources": ["engines/codec/c10_layout.cpp"], "variant": "plain", "libset": "core",
-        "quick": {"parts": 16, "deadline": 150, "bounds": "sequences of length<=3 over 31 types, all m/s splits (234 892 definitions)"},
+        "quick": {"parts": 16, "deadline": 450, "bounds": "sequences of length<=3 over 31 types, all m/s splits (234 892 definitions)"},
         "thorough": {"parts": 16, "deadline": 1500, "args": ["--maxlen", 4],
                      "bounds": "length<=3 over 31 types + length 4 over 15 types, all m/s splits"},
     }],
@@ -150,7 +150,7 @@ CHECKS["C12"] = {
     ],
     "runs": [{
         "harness": "c12_history", "sources": ["engines/codec/c12_history.cpp"], "variant": "plain", "libset": "core",
-        "quick": {"parts": 16, "deadline": 100,
+        "quick": {"parts": 16, "deadline": 400,
                   "bounds": "81 operations to fixpoint (5 760 states); stateless length<=2; 3! x 4! load orders; 19 range/divisor/bit-length/step lines in every ordered selection of <=3 (6 156); stream-state part (e)"},
         "thorough": {"parts": 16, "deadline": 800,
                      "bounds": "87 operations to fixpoint; stateless length<=3; 4! x 6! load orders; 19 lines in every ordered selection of <=4; stream-state part (e) with all 1/2-byte patterns"},
